@@ -1265,6 +1265,7 @@ static int process_table(fb_parser_t *P, fb_compound_type_t *ct)
                 id_failed = normal_field;
             } else if (field_marker[member->id]) {
                 error_tok(P, m->ident, "id attribute value conflicts with another field");
+                id_failed = 1;
             } else {
                 field_marker[member->id] = normal_field;
             }
